@@ -49,7 +49,8 @@ def timer : Machine TimerIn TimerSt TimerOut where
     sync : If(feed, remaining.eq(cycles))
            .Elif(enable, If(remaining != 0, remaining.eq(remaining - 1)), execute.eq(remaining == 0))
     comb : If(enable, ev.wdt.trigger.eq(execute))
-           reset_timer.wait.eq(enable & execute & reset_mode);  If(reset_timer.done, crg_rst.eq(1))       -/
+           reset_timer.wait.eq(enable & execute & reset_mode)
+           If(reset_timer.wait & reset_timer.done, crg_rst.eq(1))        (fix 7ecbeb8: qualified by `wait`)  -/
 
 structure WdIn where
   feed   : Bool
@@ -75,16 +76,19 @@ deriving Repr, DecidableEq
 
 def WdIn.enable (i : WdIn) : Bool := i.enF && !(i.halted && i.pauseF)
 
+/-- `reset_timer.wait`: the timeout condition in reset mode. -/
+def wdWait (s : WdSt) (i : WdIn) : Bool := i.enable && s.execute && i.resetF
+
 def wdNext (d : Nat) (s : WdSt) (i : WdIn) : WdSt :=
   { remaining := if i.feed then i.cycles
                  else if i.enable then (if s.remaining != 0 then s.remaining - 1 else s.remaining)
                  else s.remaining
     execute   := if i.feed then s.execute else if i.enable then s.remaining == 0 else s.execute
-    rcount    := WaitTimer.next d s.rcount (i.enable && s.execute && i.resetF) }
+    rcount    := WaitTimer.next d s.rcount (wdWait s i) }
 
 def watchdog (d : Nat) : Machine WdIn WdSt WdOut where
   init := { remaining := 0, execute := false, rcount := d }
-  out s i := { trigger := i.enable && s.execute, crgRst := WaitTimer.done s.rcount,
+  out s i := { trigger := i.enable && s.execute, crgRst := wdWait s i && WaitTimer.done s.rcount,
                remaining := s.remaining, execute := s.execute }
   next := wdNext d
 
